@@ -20,6 +20,7 @@ import (
 	"sync"
 	"testing"
 	"testing/synctest"
+	"time"
 
 	goat "github.com/avos-io/goat"
 	"github.com/avos-io/goat/gen/goatorepo"
@@ -95,7 +96,7 @@ func svMDTok(md metadata.MD) int64 {
 	return tok
 }
 
-var svNames = map[string]int64{"": 0, "dst": 1, "src": 2, "elsewhere": 3, "src2": 4}
+var svNames = map[string]int64{"": 0, "dst": 1, "src": 2, "elsewhere": 3, "src2": 4, "c-1": 5, "c-11": 6, "c-111": 7, "c-": 8}
 
 func svNameTok(s string) int64 {
 	if t, ok := svNames[s]; ok {
@@ -321,7 +322,9 @@ func (h *HopSpec) err() error {
 }
 
 type SAct struct {
-	Op  string     `json:"op"` // deliver | failread | wfail | wblock | stop | cancelserve | hstep
+	Op   string `json:"op"` // deliver | failread | wfail | wblock | stop | cancelserve | hstep | tick
+	Kind string `json:"kind,omitempty"` // wfail: the error the transport returns: "" plain | deadline | canceled | eof
+	D    int64  `json:"d,omitempty"`    // tick: milliseconds of virtual time
 	F   *FrameSpec `json:"f,omitempty"`
 	On  bool       `json:"on,omitempty"`
 	H   int        `json:"h,omitempty"`
@@ -347,6 +350,10 @@ func (a *SAct) coq() string {
 	}
 	panic("unknown op " + a.Op)
 }
+
+// the model has no clock: the passage of virtual time is the environment action that changes nothing (writes stay
+// blocked / unblocked as they are)
+func (r *svRig) tickCoq() string { return "ABlockWrites " + coqBool(r.wblocked) }
 
 // ---------------------------------------------------------------- the rig
 
@@ -699,9 +706,20 @@ func (r *svRig) do(a *SAct) bool {
 		r.ep.Deliver(a.F.build(seq))
 	case "failread":
 		r.ep.FailRead(errInjected)
+	case "tick":
+		time.Sleep(time.Duration(a.D) * time.Millisecond)
 	case "wfail":
 		if a.On {
-			r.ep.FailWrites(errWriteInjected)
+			var e error = errWriteInjected
+			switch a.Kind {
+			case "deadline":
+				e = fmt.Errorf("transport write: %w (%w)", context.DeadlineExceeded, errWriteInjected)
+			case "canceled":
+				e = fmt.Errorf("transport write: %w (%w)", context.Canceled, errWriteInjected)
+			case "eof":
+				e = fmt.Errorf("transport write: %w (%w)", io.EOF, errWriteInjected)
+			}
+			r.ep.FailWrites(e)
 		} else {
 			r.ep.FailWrites(nil)
 		}
@@ -808,7 +826,11 @@ func runServerScenario(t *testing.T, idx int, kind string, next func(r *svRig, s
 			wdProgress.Add(1)
 			o := rig.snapshot()
 			res.Acts = append(res.Acts, *a)
-			res.CoqActs = append(res.CoqActs, a.coq())
+			if a.Op == "tick" {
+				res.CoqActs = append(res.CoqActs, rig.tickCoq())
+			} else {
+				res.CoqActs = append(res.CoqActs, a.coq())
+			}
 			res.Obs = append(res.Obs, o)
 			res.CoqObs = append(res.CoqObs, o.coq())
 		}
